@@ -132,15 +132,23 @@ func c11Root(r *rand.Rand, i int) (gen.Hist, string) {
 	}
 }
 
-// ttSafeDepth caps the depth so that no threefold repetition can arise inside the tree (the scope of C11):
-// with two or more plies of (repetition-free) history a position two plies back can be reached again after
-// 2 plies and once more after 6, so depth 6 is out; with at most one ply of history 7 plies are needed.
+// ttSafeDepth caps the depth so that no threefold repetition can arise inside the tree (the scope of C11).
+// The history is repetition-free, so a third occurrence needs a history position (or the root) to occur twice
+// more on one line, or a new position three times; two occurrences on a line are at least four plies apart.
+// With three or more plies of history some earlier position may be one move away (the mover's opponent shuffled
+// back, or triangulated, and the mover steps back): second occurrence at ply 1, third at ply 5 - so depth 4 is
+// the limit. With two plies the start position is two plies away (third occurrence at ply 6), with one ply or
+// none the earliest is ply 7 or 8.
 func ttSafeDepth(h gen.Hist, depth int) int {
-	if len(h.Moves) >= 2 && depth > 5 {
-		return 5
+	limit := 6
+	switch n := len(h.Moves); {
+	case n >= 3:
+		limit = 4
+	case n == 2:
+		limit = 5
 	}
-	if depth > 6 {
-		return 6
+	if depth > limit {
+		return limit
 	}
 	return depth
 }
@@ -495,8 +503,8 @@ func init() {
 		ID:          "C11",
 		Level:       "exploration",
 		Technique:   "runtime differential monitor: every search with a (recording) transposition table compared with the same search without table; sampled exact entries re-derived by table-less search on a fork taken at write time",
-		Rule:        "position-determined configurations (Material, hash, BERNSTEIN evaluators; full, plausible-move, no-under-promotion exploration; static and captures-quiescence leaves) on repetition-free roots with clock < 80, depth <= 6, table variants 32 B (1 slot) .. 1 MiB and the engine's min-depth wrapper; search sequences on one table: iterative deepening, same search 3x, successive positions of a game, narrowed windows then full window, sibling-first; console: the same console-driver session (reset + moves, analyze d, undo, analyze d+1, moves) on an engine with and without hash table: same scores per depth, same table-less per-move breakdown; compared: root score, non-empty PV whose first move is a best move, sampled ExactBound writes vs true value; distinct = distinct (configuration, depth, table, sequence, history)",
-		Assumptions: []string{"table-less alpha-beta is the reference here; it is itself checked against the independent minimax by C03", "scope as the property states: position-determined evaluation, no repetition / fifty-move draw reachable inside the tree (roots certified repetition-free by the rules oracle, depth <= 6, clock + depth < 100)"},
+		Rule:        "position-determined configurations (Material, hash, BERNSTEIN evaluators; full, plausible-move, no-under-promotion exploration; static and captures-quiescence leaves) on repetition-free roots with clock < 80, depth <= 4 / 5 / 6 for histories of >= 3 / 2 / <= 1 plies (below the first ply at which a third occurrence can arise), table variants 32 B (1 slot) .. 1 MiB and the engine's min-depth wrapper; search sequences on one table: iterative deepening, same search 3x, successive positions of a game, narrowed windows then full window, sibling-first; console: the same console-driver session (reset + moves, analyze d, undo, analyze d+1, moves) on an engine with and without hash table: same scores per depth, same table-less per-move breakdown; compared: root score, non-empty PV whose first move is a best move, sampled ExactBound writes vs true value; distinct = distinct (configuration, depth, table, sequence, history)",
+		Assumptions: []string{"table-less alpha-beta is the reference here; it is itself checked against the independent minimax by C03", "scope as the property states: position-determined evaluation, no repetition / fifty-move draw reachable inside the tree (roots certified repetition-free by the rules oracle; depth <= 4 with three or more plies of history, <= 5 with two, <= 6 otherwise; clock + depth < 100)"},
 		Setup:       validateOracle,
 		Timeout:     minutes(15, 120),
 		Cases: func(tier string, seed int64) []fw.Case {
